@@ -10,7 +10,7 @@ META = {
         "code (185 expressions x 35 integer data sets) runs alongside as cross-check of the models.",
         "level_note": "Trusted: the NodeTransformer dispatch/generic_visit model, CPython's parser "
         "for the four literal lambda strings, the visitor-induction rule, z3, the engine's own VC "
-        "generator; keywords on shortcut calls are outside the stated domain.",
+        "generator. Calls with keyword or starred arguments count as `another argument count` (a defect that dropped them was repaired, 6dc85bd; the earlier domain restriction agg_kwfree is gone).",
         "technique": "contract-based deductive verification (self-generated VCs from the real source, z3) + Lean lemma for the folds; bounded contract check as labelled stand-in",
         "p_keys": True,
         "explanation": "Contract-based deductive verification: aggregate_node_transformer.visit_Call, "
@@ -20,8 +20,7 @@ META = {
         "the code are proved to be the count/sum/max/min step functions over the integers; that a "
         "left fold of those from 0 equals len/sum/max(0::l)/min(0::l) is a Lean 4 lemma "
         "(lean/FuncAdlLemmas.lean).",
-        "assumptions": ["calls to len/Count/Sum/Max/Min carry no keyword arguments (the property is "
-                        "silent about them; stated domain restriction agg_kwfree)"],
+        "assumptions": [],
     },
     "C17": {
         "level": "proof",
